@@ -224,9 +224,12 @@ pub enum MPathOp<'a> {
 /// literal list `segs` of a path that is `abs`olute or not. The first entry is
 /// the primary reading; further entries are the readings the statement leaves
 /// open (see DESIGN 2.4), each accepted and counted.
-pub fn path_outcomes(abs: bool, segs: &Segs, op: &MPathOp) -> Vec<Segs> {
-	fn add(v: &mut Vec<(Segs, u8)>, x: (Segs, u8)) {
-		if !v.contains(&x) {
+/// `None`: more open readings than the cap - the model gives no verdict on this operation.
+pub fn path_outcomes(abs: bool, segs: &Segs, op: &MPathOp) -> Option<Vec<Segs>> {
+	const CAP: usize = 512;
+
+	fn add(v: &mut Vec<(Segs, u8)>, seen: &mut std::collections::HashSet<(Segs, u8)>, x: (Segs, u8)) {
+		if seen.insert(x.clone()) {
 			v.push(x)
 		}
 	}
@@ -236,17 +239,18 @@ pub fn path_outcomes(abs: bool, segs: &Segs, op: &MPathOp) -> Vec<Segs> {
 	/// leading shield stripped, because an implementation working on the text
 	/// cannot tell a shield it wrote from a '.' segment that was there before.
 	/// open: 0 = closed, 1 = opened by '.', 2 = opened by '..'
-	fn sym_fold(abs: bool, start: &Segs, items: &[&[u8]]) -> Vec<Segs> {
+	fn sym_fold(abs: bool, start: &Segs, items: &[&[u8]]) -> Option<Vec<Segs>> {
 		let mut states: Vec<(Segs, u8)> = vec![(start.clone(), 0)];
 		for it in items {
 			let mut next: Vec<(Segs, u8)> = Vec::new();
+			let mut seen = std::collections::HashSet::new();
 			for (s, open) in &states {
 				match *it {
-					b"." => add(&mut next, (s.clone(), if *open == 2 { 2 } else { 1 })),
+					b"." => add(&mut next, &mut seen, (s.clone(), if *open == 2 { 2 } else { 1 })),
 					b".." => {
 						let mut t = s.clone();
 						m_pop(abs, &mut t);
-						add(&mut next, (t, 2));
+						add(&mut next, &mut seen, (t, 2));
 						// left open by the statement: on a list that ends in an empty segment
 						// ("a/b/") the directory meaning of ".." per RFC 3986 5.2.4 removes the
 						// empty segment together with its predecessor ("a/"), while popping the
@@ -255,28 +259,30 @@ pub fn path_outcomes(abs: bool, segs: &Segs, op: &MPathOp) -> Vec<Segs> {
 							let mut t2 = s.clone();
 							t2.pop();
 							t2.pop();
-							add(&mut next, (t2, 2));
+							add(&mut next, &mut seen, (t2, 2));
 						}
 					}
 					seg => {
 						// left open by the statement: an empty segment symbolically
 						// pushed onto an empty path is appended or skipped
 						if seg.is_empty() && s.is_empty() {
-							add(&mut next, (s.clone(), 0));
+							add(&mut next, &mut seen, (s.clone(), 0));
 						}
 						let mut t = s.clone();
 						t.push(seg.to_vec());
-						add(&mut next, (t, 0));
+						add(&mut next, &mut seen, (t, 0));
 					}
 				}
 			}
-			let mut closed = next.clone();
-			for (s, open) in &next {
+			let snapshot = next.clone();
+			for (s, open) in &snapshot {
 				let st = strip(s).to_vec();
-				add(&mut closed, (st, *open));
+				add(&mut next, &mut seen, (st, *open));
 			}
-			closed.truncate(32);
-			states = closed;
+			if next.len() > CAP {
+				return None;
+			}
+			states = next;
 		}
 		let mut out: Vec<Segs> = Vec::new();
 		for (s, open) in states {
@@ -300,21 +306,21 @@ pub fn path_outcomes(abs: bool, segs: &Segs, op: &MPathOp) -> Vec<Segs> {
 				}
 			}
 		}
-		out
+		Some(out)
 	}
 
 	match op {
 		MPathOp::Push(s) => {
 			let mut r = segs.clone();
 			r.push(s.to_vec());
-			vec![r]
+			Some(vec![r])
 		}
 		MPathOp::Pop => {
 			let mut r = segs.clone();
 			m_pop(abs, &mut r);
-			vec![r]
+			Some(vec![r])
 		}
-		MPathOp::Clear => vec![Vec::new()],
+		MPathOp::Clear => Some(vec![Vec::new()]),
 		MPathOp::SymPush(s) => sym_fold(abs, segs, &[*s]),
 		MPathOp::SymAppend(items) => sym_fold(abs, segs, items),
 	}
@@ -388,31 +394,31 @@ mod tests {
 
 	#[test]
 	fn outcomes_push_pop_clear() {
-		assert_eq!(path_outcomes(false, &v(&["a"]), &MPathOp::Push(b"b")), vec![v(&["a", "b"])]);
-		assert_eq!(path_outcomes(false, &v(&[]), &MPathOp::Pop), vec![v(&[".."])]);
-		assert_eq!(path_outcomes(true, &v(&[]), &MPathOp::Pop), vec![v(&[])]);
-		assert_eq!(path_outcomes(true, &v(&["a", ".."]), &MPathOp::Pop), vec![v(&["a", "..", ".."])]);
-		assert_eq!(path_outcomes(true, &v(&["a", "b"]), &MPathOp::Pop), vec![v(&["a"])]);
-		assert_eq!(path_outcomes(true, &v(&["a", "b"]), &MPathOp::Clear), vec![v(&[])]);
+		assert_eq!(path_outcomes(false, &v(&["a"]), &MPathOp::Push(b"b")).unwrap(), vec![v(&["a", "b"])]);
+		assert_eq!(path_outcomes(false, &v(&[]), &MPathOp::Pop).unwrap(), vec![v(&[".."])]);
+		assert_eq!(path_outcomes(true, &v(&[]), &MPathOp::Pop).unwrap(), vec![v(&[])]);
+		assert_eq!(path_outcomes(true, &v(&["a", ".."]), &MPathOp::Pop).unwrap(), vec![v(&["a", "..", ".."])]);
+		assert_eq!(path_outcomes(true, &v(&["a", "b"]), &MPathOp::Pop).unwrap(), vec![v(&["a"])]);
+		assert_eq!(path_outcomes(true, &v(&["a", "b"]), &MPathOp::Clear).unwrap(), vec![v(&[])]);
 	}
 
 	#[test]
 	fn outcomes_symbolic() {
 		// ".." pops and leaves the directory open
-		let o = path_outcomes(true, &v(&["a", "b"]), &MPathOp::SymPush(b".."));
+		let o = path_outcomes(true, &v(&["a", "b"]), &MPathOp::SymPush(b"..")).unwrap();
 		assert!(o.contains(&v(&["a", ""])));
 		assert!(!o.contains(&v(&["a"])));
 		// "." on a list ending in an empty segment: both readings
-		let o = path_outcomes(false, &v(&["a", ""]), &MPathOp::SymPush(b"."));
+		let o = path_outcomes(false, &v(&["a", ""]), &MPathOp::SymPush(b".")).unwrap();
 		assert!(o.contains(&v(&["a", ""])) && o.contains(&v(&["a", "", ""])));
 		// ".." after which the list ends in an empty segment: the empty segment must be added
-		let o = path_outcomes(true, &v(&["a", "", "b"]), &MPathOp::SymAppend(vec![b".."]));
+		let o = path_outcomes(true, &v(&["a", "", "b"]), &MPathOp::SymAppend(vec![b".."])).unwrap();
 		assert_eq!(o, vec![v(&["a", "", ""])]);
 		// an empty segment onto an empty list: appended or skipped
-		let o = path_outcomes(false, &v(&[]), &MPathOp::SymPush(b""));
+		let o = path_outcomes(false, &v(&[]), &MPathOp::SymPush(b"")).unwrap();
 		assert!(o.contains(&v(&[])) && o.contains(&v(&[""])));
 		// ordinary segments behave like push
-		assert_eq!(path_outcomes(false, &v(&["a"]), &MPathOp::SymAppend(vec![b"b", b"c"])), vec![v(&["a", "b", "c"])]);
+		assert_eq!(path_outcomes(false, &v(&["a"]), &MPathOp::SymAppend(vec![b"b", b"c"])).unwrap(), vec![v(&["a", "b", "c"])]);
 	}
 
 	#[test]
